@@ -318,6 +318,8 @@ Definition g_observe_final (i : ginput) : val :=
        (bind (schedule_full SL (policy_of_code (gi_policy i)) (gi_enforce i) (gi_preemptive i) (gi_now i)
                             (gi_cluster i) (gi_offered i)) (fun o => Ok (snd o))).
 
+Definition g_observe_both (i : ginput) : val := L [g_observe i; g_observe_final i].
+
 (* monitors on the implementation's own decisions *)
 Record gobs := mkGO { go_in : ginput; go_decisions : list decision }.
 (* the documented planning state, by hand: EDF and LSF restart from the empty cluster when preemptive (deepcopy),
